@@ -199,6 +199,21 @@ func (e *Engine) VerifyFunction(fn *ssa.Function, con *Contract) (v *FV) {
 			v.frameCheck(fr, ex.st, con, vars, penv.pkg)
 		}
 	}
+	for _, lk := range con.Atomic2 {
+		n := 0
+		if v.sections != nil {
+			n = v.sections[lk]
+		}
+		goal := "true"
+		if n > 1 {
+			goal = "false"
+		}
+		if v.quiet == 0 {
+			v.obls = append(v.obls, &Obligation{Name: v.curFnKey + "#atomic." + lk, Kind: "atomic", Fn: v.curFnKey,
+				Text: fmt.Sprintf("the operation is one atomic step w.r.t. lock %s: it enters %d critical section(s) of it without a serializing lock; its contract is proved sequentially, so with more than one section other threads may interleave between them", lk, n),
+				Reach: "true", Goal: goal, ScriptLen: len(v.script), Expect: "unsat"})
+		}
+	}
 	// smoke: the function can return (the requires and the assumed contracts are not
 	// contradictory). Expected sat (or unknown); unsat = vacuous.
 	if v.quiet == 0 {
@@ -248,6 +263,11 @@ func (v *FV) frameCheck(fr *Frame, st *State, con *Contract, vars map[string]TV,
 		for _, r := range allowed[a] {
 			if r == "*" {
 				whole = true
+			}
+			if strings.HasPrefix(r, "?") {
+				parts := strings.SplitN(r[1:], "\x00", 2)
+				excl = append(excl, fmt.Sprintf("(not (and %s (= %s %s)))", parts[0], k, parts[1]))
+				continue
 			}
 			excl = append(excl, fmt.Sprintf("(not (= %s %s))", k, r))
 		}
@@ -579,6 +599,8 @@ func (v *FV) allowedLocs(fr *Frame, st *State, locs []string, con *Contract, var
 		for _, t := range ts {
 			if t.all {
 				allowed[t.arr] = append(allowed[t.arr], "*")
+			} else if t.cond != "" {
+				allowed[t.arr] = append(allowed[t.arr], "?"+t.cond+"\x00"+t.ref)
 			} else {
 				allowed[t.arr] = append(allowed[t.arr], t.ref)
 			}
@@ -605,6 +627,11 @@ func (v *FV) loopFrameTerm(fr *Frame, st *State, arrs []string, allowed map[stri
 		for _, r := range allowed[a] {
 			if r == "*" {
 				whole = true
+			}
+			if strings.HasPrefix(r, "?") {
+				parts := strings.SplitN(r[1:], "\x00", 2)
+				excl = append(excl, fmt.Sprintf("(not (and %s (= k %s)))", parts[0], parts[1]))
+				continue
 			}
 			excl = append(excl, fmt.Sprintf("(not (= k %s))", r))
 		}
